@@ -3,6 +3,7 @@
 from __future__ import annotations
 
 import json
+import time
 import re
 from typing import Any
 
@@ -1236,6 +1237,115 @@ def pair_groups(rng) -> list[tuple[str, list[tuple[str, Any, Any]]]]:
     return groups
 
 
+def flow_history_stream(ctx: Ctx, book: Book) -> None:
+    """A Flow is the one NLRI that is built by mutation (`add`) and serialised on demand (`pack_nlri`, `index`,
+    `len`, `==`, `hash` all serialise).  What it encodes to is a function of the rules it holds: the bytes of a
+    flow built rule by rule with serialisations in between, or sharing rule objects with another flow that was
+    serialised, equal the bytes of the same rules put into a fresh flow at once, and decode to an equal flow."""
+    from exabgp.bgp.message.update.nlri.flow import (Flow, Flow4Destination, Flow4Source, FlowAnyPort, FlowDestinationPort, FlowFragment, FlowICMPType,
+                                                       FlowIPProtocol, FlowPacketLength, FlowSourcePort, FlowTCPFlag, NumericOperator, BinaryOperator)  # fmt: skip
+    from harness import roundtriprig as R
+
+    rng = ctx.rng
+    neg = R.Sess.get(False)
+    numeric = [FlowIPProtocol, FlowAnyPort, FlowDestinationPort, FlowSourcePort, FlowICMPType, FlowPacketLength]
+    ops = [NumericOperator.EQ, NumericOperator.GT, NumericOperator.LT]
+
+    def rules_of(spec: list) -> list:
+        out = []
+        for kind, a, b in spec:
+            if kind == 'dst':
+                out.append(Flow4Destination.make_prefix4(bytes([10, a % 256, b % 256, 0]), 24))
+            elif kind == 'src':
+                out.append(Flow4Source.make_prefix4(bytes([192, 0, a % 256, 0]), 24))
+            elif kind == 'tcp':
+                out.append(FlowTCPFlag(BinaryOperator.MATCH if a % 2 else BinaryOperator.NOP, FlowTCPFlag.converter(str(1 << (b % 6)))))
+            elif kind == 'frag':
+                out.append(FlowFragment(BinaryOperator.NOP, FlowFragment.converter(str(1 << (b % 4)))))
+            else:
+                out.append(numeric[kind](ops[a % 3], numeric[kind].converter(str(b % (256 if numeric[kind] in (FlowIPProtocol, FlowICMPType) else 65536)))))
+        return out
+
+    def fresh(spec: list) -> bytes:
+        f = Flow.make_flow()
+        for r in rules_of(spec):
+            f.add(r)
+        return bytes(f.pack_nlri(neg))
+
+    def poke(f: Any, how: int) -> None:
+        (lambda: f.pack_nlri(neg), lambda: f.index(), lambda: len(f), lambda: hash(f), lambda: f == f, lambda: str(f))[how % 6]()
+
+    n = 300 if ctx.tier == 'quick' else 6000
+    for it in range(n):
+        if ctx.time_left() < 4:
+            ctx.notes.append('budget reached in the flow history stream')
+            return
+        spec = [('dst', rng.randrange(256), rng.randrange(256))] if rng.random() < 0.7 else []
+        for _ in range(rng.randrange(1, 6)):
+            kind = rng.choice([0, 1, 2, 2, 3, 4, 5, 'tcp', 'frag'])
+            spec.append((kind, rng.randrange(6), rng.choice([0, 1, 80, 255, 256, 443, 65535, rng.randrange(65536)])))
+        try:
+            want = fresh(spec)
+        except Exception:  # noqa: BLE001  (a combination the builder refuses: not this stream's business)
+            ctx.count('flow-history:refused')
+            continue
+        ctx.evaluations += 1
+        scenario = rng.choice(['poke-between-adds', 'shared-rules', 'copy-then-add', 'decoded-then-add'])
+        ctx.count('flow-history:' + scenario)
+        replay = {'stream': 'flow-history', 'scenario': scenario, 'spec': [[str(k), a, b] for k, a, b in spec]}
+        try:
+            rules = rules_of(spec)
+            if scenario == 'poke-between-adds':
+                f = Flow.make_flow()
+                for r in rules:
+                    f.add(r)
+                    poke(f, rng.randrange(6))
+            elif scenario == 'shared-rules':
+                # the same rule objects were the tail of another flow that has been serialised
+                other = Flow.make_flow()
+                for r in rules[: max(1, len(rules) - 1)]:
+                    other.add(r)
+                other.pack_nlri(neg)
+                f = Flow.make_flow()
+                for r in rules:
+                    f.add(r)
+            elif scenario == 'copy-then-add':
+                import copy as _copy
+
+                g = Flow.make_flow()
+                for r in rules[:-1]:
+                    g.add(r)
+                g.pack_nlri(neg)
+                f = _copy.copy(g)
+                f.add(rules[-1])
+            else:
+                g = Flow.make_flow()
+                for r in rules[:-1]:
+                    g.add(r)
+                if len(rules) > 1:
+                    f, rest = R.decode_nlri(g.afi, g.safi, bytes(g.pack_nlri(neg)), False)
+                    poke(f, rng.randrange(6))
+                else:
+                    f = Flow.make_flow()
+                f.add(rules[-1])
+            got = bytes(f.pack_nlri(neg))
+        except Exception as e:  # noqa: BLE001
+            book.add('roundtrip-law', 'Flow', 'history:build-raises', scenario, want, f'{R.err_name(e)} while building {spec}', replay)
+            continue
+        if got != want:
+            book.add('roundtrip-law', 'Flow', 'history:bytes-depend-on-how-the-flow-was-built', scenario, want, f'{spec}: built at once {hx(want)}, {scenario} {hx(got)}', replay)
+            continue
+        try:
+            y, rest = R.decode_nlri(f.afi, f.safi, got, False)
+            ok = (not rest) and y is not R.NLRI.INVALID and bytes(y.pack_nlri(neg)) == got
+        except Exception:  # noqa: BLE001
+            ok = False
+        if not ok:
+            book.add('roundtrip-law', 'Flow', 'history:decode-what-was-encoded', scenario, got, f'{spec}: {hx(got)} does not decode back', replay)
+        else:
+            ctx.nontrivial('flow-history:' + hx(got))
+
+
 def pair_stream(ctx: Ctx, book: Book) -> None:
     """The decided oracle for "equal routes have equal indexes and hashes; routes that differ on the wire
     do not share an index", on pairs that differ in exactly one field (or in none)."""
@@ -1323,6 +1433,7 @@ def run(ctx: Ctx) -> None:
     object_streams(ctx, book, cover, pool, by_value, extra_factory=25 if quick else 300, n_text=1500 if quick else 20000)
     index_stream(ctx, book, 6000 if quick else 100000)
     pair_stream(ctx, book)
+    flow_history_stream(ctx, book)
     if ctx.driver_ok:
         framing_stream(ctx, book, pool, 3 if quick else 12)
     else:
@@ -1371,6 +1482,23 @@ def replay(path: str) -> int:
             bad = 1
         if (xa == xb) and hash(xa) != hash(xb):
             bad = 1
+    elif st == 'flow-history':
+        # the stream is re-run from seeds until the recorded scenario shows again (its generator is the replay)
+        import random as _random
+
+        for sd in range(40):
+            c2 = Ctx(prop='C15', tier='quick', seed=sd, rng=_random.Random(sd))
+            c2.deadline = time.time() + 60
+            b2 = Book(c2)
+            flow_history_stream(c2, b2)
+            b2.flush()
+            hits = [f for f in c2.failures if f.canon == data.get('canon')]
+            if hits:
+                print('LAW FAILS:', hits[0].what[:400])
+                bad = 1
+                break
+        else:
+            print('the flow history stream holds (40 seeds x 300 flows)')
     elif st in ('nlri', 'nlri-bytes', 'framing'):
         from exabgp.protocol.family import AFI, SAFI
 
